@@ -19,7 +19,7 @@ use crate::util::*;
 pub const PROP: Prop = Prop {
     id: "C06",
     level: "fault_enumeration",
-    rule: "inputs from printed values (several dialects), mutations of them, token-alphabet sequences and arbitrary bytes (<= 200 bytes quick, 2 KiB thorough) x sampled parser option sets (all 1536 reachable) x API (single-shot value, single-shot datum, iterated); the stream is an instrumented io::Read with chunk schedules {1 byte, generated cycle, whole}, optional BufReader of capacity {1,2,3,7,8192}, Interrupted injected by a generated pattern (including before the first read), and a hard error injected at EVERY offset 0..=len of every input with each of four error kinds; oracle: same outcome from str (valid UTF-8 only), slice and stream, and for the iterated APIs the same whole history of items and errors when the caller goes on after an error; a fault at or before the highest offset the fault-free run requested must give an I/O-category error carrying the injected payload, a later fault must change nothing; non-trivial = at least 2 tokens and (a fault strictly inside the input, or >= 2 chunks, or an Interrupted); distinct by digest of (input, options, schedule)",
+    rule: "inputs from printed values (several dialects), mutations of them, token-alphabet sequences and arbitrary bytes (<= 200 bytes quick, 2 KiB thorough) x sampled parser option sets (all 1536 reachable) x API (single-shot value, single-shot datum, iterated); the stream is an instrumented io::Read with chunk schedules {1 byte, generated cycle, whole}, optional BufReader of capacity {1,2,3,7,8192}, Interrupted injected by a generated pattern (including before the first read), and a hard error injected at EVERY offset 0..=len of every input with each of four error kinds; oracle: same outcome from str (valid UTF-8 only), slice and stream, and for the iterated APIs the same whole history of items and errors when the caller goes on after an error; a fault at or before the highest offset the fault-free run requested must give an I/O-category error carrying the injected payload, a later fault must change nothing; a stream that keeps failing with WouldBlock must make the call return that error (no further polling), and after a failure that occurs once the parser must not report the end of input before the stream has delivered all its bytes; non-trivial = at least 2 tokens and (a fault strictly inside the input, or >= 2 chunks, or an Interrupted); distinct by digest of (input, options, schedule)",
     assumptions: &[
         "error outcomes are compared by category and message text without the location suffix (locations are C11/C19's subject)",
         "the parser is deterministic, so the set of offsets it requests in the fault-free run determines which faults it must hit",
@@ -374,6 +374,114 @@ pub fn check_case(c: &Case, label: &str) -> CaseResult {
                         format!("iterating past errors: call {} gives {} from the str but {} from the slice", i, short(&from_str.get(i)), short(&from_slice.get(i))),
                     ));
                 }
+            }
+        }
+        // a stream that keeps failing: the call has to return the error instead
+        // of polling on (bounded here: the reader gives up after 1000 polls; up to one poll per enclosing list is normal while the error unwinds), and
+        // a stream that fails once must not be taken for finished afterwards
+        {
+            use std::cell::Cell;
+            use std::rc::Rc;
+            struct Stuck<'a> {
+                data: &'a [u8],
+                pos: usize,
+                stop: usize,
+                transient: bool,
+                polls: Rc<Cell<usize>>,
+                delivered: Rc<Cell<usize>>,
+            }
+            impl<'a> Read for Stuck<'a> {
+                fn read(&mut self, out: &mut [u8]) -> io::Result<usize> {
+                    if self.pos == self.stop && (!self.transient || self.polls.get() == 0) {
+                        self.polls.set(self.polls.get() + 1);
+                        if self.polls.get() > 1000 {
+                            return Err(io::Error::new(io::ErrorKind::Other, "poll budget exhausted"));
+                        }
+                        return Err(io::Error::new(io::ErrorKind::WouldBlock, Payload(4242)));
+                    }
+                    match (self.data.get(self.pos), out.first_mut()) {
+                        (Some(b), Some(o)) => {
+                            *o = *b;
+                            self.pos += 1;
+                            self.delivered.set(self.pos);
+                            Ok(1)
+                        }
+                        _ => Ok(0),
+                    }
+                }
+            }
+            let stop = (digest_of(&c.input) as usize) % (c.input.len() + 1);
+            let datum = matches!(c.api, Api::Datum | Api::IterDatum);
+            // what the same calls give without any failure: an end-of-input
+            // error that the delivered bytes determine anyway is not "early"
+            let plain: Vec<Option<(String, String)>> = {
+                let mut p = Parser::from_slice_custom(&c.input, q.to_lexpr());
+                let mut out = Vec::new();
+                for _ in 0..cap + 4 {
+                    let r = if datum { p.next_datum().map(|o| o.is_some()) } else { p.next_value().map(|o| o.is_some()) };
+                    match r {
+                        Ok(true) => out.push(None),
+                        Ok(false) => break,
+                        Err(e) => out.push(Some(err_pair(&e))),
+                    }
+                }
+                out
+            };
+            for transient in [false, true] {
+                let mut idx = 0usize;
+                let polls = Rc::new(Cell::new(0usize));
+                let delivered = Rc::new(Cell::new(0usize));
+                let mut p = Parser::from_reader_custom(Stuck { data: &c.input, pos: 0, stop, transient, polls: polls.clone(), delivered: delivered.clone() }, q.to_lexpr());
+                let mut saw_io = false;
+                for _ in 0..cap + 4 {
+                    let r = if datum { p.next_datum().map(|o| o.is_some()) } else { p.next_value().map(|o| o.is_some()) };
+                    if !matches!(&r, Err(e) if e.is_io()) {
+                        idx += 1;
+                    }
+                    match r {
+                        Ok(true) => {}
+                        Ok(false) => {
+                            // (only once the failure has happened: before that an
+                            // early end is the parser's reading of the bytes it got)
+                            if polls.get() > 0 && delivered.get() < c.input.len() {
+                                return Err((
+                                    format!("stuck-stream end-reported-early transient={}", transient),
+                                    format!("end of input reported after {} of {} bytes: the stream failed{} at offset {} and was taken for finished", delivered.get(), c.input.len(), if transient { " once" } else { "" }, stop),
+                                ));
+                            }
+                            break;
+                        }
+                        Err(e) if e.is_io() => {
+                            saw_io = true;
+                            let back: io::Error = e.into();
+                            if back.kind() != io::ErrorKind::WouldBlock {
+                                return Err(("stuck-stream kept-polling".into(), format!("the stream failed with WouldBlock at offset {} and was polled {} more times until it gave up", stop, polls.get())));
+                            }
+                            if !transient {
+                                break;
+                            }
+                        }
+                        Err(e) => {
+                            // an end-of-input *error* is only held against the parser when
+                            // the stream keeps failing (after a failure that occurs once,
+                            // the token in progress is lost and malformed constants further
+                            // on are classified as end-of-input errors as well)
+                            let same_without_failure = plain.get(idx - 1).map_or(false, |x| *x == Some(err_pair(&e)));
+                            if !transient && polls.get() > 0 && e.is_eof() && delivered.get() < c.input.len() && !same_without_failure {
+                                return Err((
+                                    format!("stuck-stream eof-reported-early transient={}", transient),
+                                    format!("an end-of-input error ({}) after {} of {} bytes: the stream failure at offset {} was taken for the end", e, delivered.get(), c.input.len(), stop),
+                                ));
+                            }
+                        }
+                    }
+                }
+                // (while unwinding, every enclosing list looks at the next byte once:
+                // the number of polls is bounded by the nesting limit)
+                if polls.get() > 140 {
+                    return Err(("stuck-stream kept-polling".into(), format!("the failing stream was polled {} times by a single caller that stopped at the first error", polls.get())));
+                }
+                let _ = saw_io;
             }
         }
         // the unbuffered one-byte run defines `need`
